@@ -602,8 +602,11 @@ pub fn check(prop: &dyn Property, tier: Tier, seed: u64) -> i32 {
         "wall_s": (wall * 100.0).round() / 100.0,
         "violations": violations.len(),
     });
-    let epath = format!("{}/evidence/{}.json", crate::verif_root(), id);
-    let _ = std::fs::create_dir_all(format!("{}/evidence", crate::verif_root()));
+    // VERIF_EVIDENCE_DIR: only tools/mutant.sh sets it, so that a run against a seeded change does not
+    // overwrite the evidence of the unchanged tree
+    let edir = std::env::var("VERIF_EVIDENCE_DIR").unwrap_or_else(|_| format!("{}/evidence", crate::verif_root()));
+    let epath = format!("{}/{}.json", edir, id);
+    let _ = std::fs::create_dir_all(&edir);
     std::fs::write(&epath, serde_json::to_string_pretty(&evidence).unwrap()).expect("write evidence");
 
     // 5. report.
